@@ -1,3 +1,7 @@
+mod c48;
+mod c51;
+mod util;
+
 fn main() {
-    vmon::run_main(&[]);
+    vmon::run_main(&[("C48", c48::run), ("C51", c51::run)]);
 }
